@@ -15,7 +15,11 @@ impl GenerationPass for LivenessPass {
         let mut visited = HashSet::new();
         while changed {
             changed = false;
+            #[cfg(rajanmaghera_riscv_analysis_verif)]
+            crate::verif_hooks::sweep(crate::verif_hooks::Pass::Liveness);
             for node in cfg.iter().rev() {
+                #[cfg(rajanmaghera_riscv_analysis_verif)]
+                crate::verif_hooks::visit();
                 // live_out[n] = U live_in[s] for all s in next[n]
                 let live_out = node
                     .nexts()
